@@ -38,7 +38,7 @@ func genAggMembers(c *Ctx) *aggMembers {
 	w := uint64(a.w)
 	spans := []uint64{1, 2, 3, 4*w - 1, 4 * w, 4*w + 1, 17, 300, 1000}
 	a.span = spans[r.Intn(len(spans))]
-	if a.span > 100 && r.Chance(0.5) {
+	if a.span > 100 && r.Chance(0.8) {
 		a.span = spans[r.Intn(6)]
 	}
 	a.place = []string{"bottom", "middle", "top", "top"}[r.Intn(4)]
@@ -53,6 +53,9 @@ func genAggMembers(c *Ctx) *aggMembers {
 	n := r.Intn(13)
 	if r.Chance(0.3) {
 		n = 2 + r.Intn(3)
+	}
+	if a.span > 100 && n > 5 {
+		n = 2 + r.Intn(4)
 	}
 	heavy := 0.4
 	if a.span > 20 {
